@@ -8,7 +8,8 @@
       mult_okb          multiplier >= 1 and multiplier * unit fits int64;
       "D"               day_window_okb: regular local midnights and ts + 24 h falls on a later date;
       "W"               one week, location at UTC offset 0 at ts and at the window start;
-      "M", "Y"          not covered by a theorem (tied differentially only, see notes/C31.md). *)
+      "M"               month_window_okb: regular local midnights of the first of the month and of the next month;
+      "Y"               year_window_okb: same UTC offset at ts and at the (absolute, 365-day) window start. *)
 From Coq Require Import ZArith List Bool String.
 Import ListNotations.
 Require Import MS.Base.GoInt MS.Base.Res MS.Base.Civil MS.Base.Tz MS.Generated.Src_time
